@@ -61,7 +61,9 @@ int Logger::operator()()
 {
    unsigned received(0);
 
-   while (!_stopping)
+   // stop() raises the flag and then queues an empty string: keep consuming until that sentinel
+   // is reached so that every line accepted before stop() is written
+   for (;;)
    {
 		LogElement *msg_ptr(0);
 
